@@ -64,6 +64,17 @@ func (w *vWorld) deliverTracked(m interface{}) bool {
 	if !w.deliver(m) {
 		w.mu.Lock()
 		w.violate("actor-blocked", "Syncer.Receive(%T) did not return within %v: the actor is blocked\n%s", m, vBlockLimit, goroutineDump())
+		// the two known ways to get there (known_findings.json) are told apart by what was being handed over
+		if n := len(w.viol); n > 0 && w.viol[n-1].sig["kind"] == "actor-blocked" {
+			switch m.(type) {
+			case *message.GetHashByNoRsp:
+				w.viol[n-1].sig["race"] = "hashbyno-response-after-finder-timeout"
+			case *message.GetBlockChunksRsp, *message.AddBlockRsp:
+				if w.bfEnded {
+					w.viol[n-1].sig["race"] = "responses-for-ended-blockfetcher-exceed-buffer"
+				}
+			}
+		}
 		w.mu.Unlock()
 		return false
 	}
